@@ -254,6 +254,19 @@ class PathCtx:
             st.discharged += 1
             return True
         m = self.solver.model()
+        # prefer a witness whose real inputs are exactly representable as floats (multiples of 1/64): replays run in IEEE
+        reals = [t for t in self.inputs.values() if z3.is_real(t)]
+        if reals and len(reals) <= 64:
+            self.solver.push()
+            try:
+                self.solver.set("timeout", 5000)
+                for i, t in enumerate(reals):
+                    self.solver.add(t * 64 == z3.ToReal(z3.Int(f"nice!{i}")))
+                if self.solver.check(neg) == z3.sat:
+                    m = self.solver.model()
+            finally:
+                self.solver.set("timeout", self.ex.timeout_ms)
+                self.solver.pop()
         model = {k: _pyval(m.eval(t, model_completion=True)) for k, t in self.inputs.items()}
         d = dict(detail or {})
         for k, v in list(d.items()):
@@ -291,6 +304,7 @@ class Explorer:
     def __init__(self, max_paths=20000, max_depth=5000, timeout_ms=60000, stop_on_cex=False, seed=0):
         self.solver = z3.Solver()
         self.solver.set("timeout", timeout_ms)
+        self.timeout_ms = timeout_ms
         self.solver.set("random_seed", seed & 0xFFFF)
         self.max_paths = max_paths
         self.max_depth = max_depth
